@@ -93,7 +93,7 @@ pub fn run_case(f: &[String]) -> String {
             hex(&midi::generate(&mut song))
         }
         "compile_ev" => {
-            // compile_ev <src>  ->  <hex bytes> \t <timebase> \t <events per track as handed to the writer> \t <log>
+            // compile_ev <src>  ->  <hex bytes of compile()> \t <timebase> \t <events per track as handed to the writer> \t <log of compile()>
             let mut song = Song::new();
             let src = sutoton::convert(&text(&f[1]));
             let tokens = lexer::lex(&mut song, &src, 0);
@@ -102,8 +102,9 @@ pub fn run_case(f: &[String]) -> String {
             song.play_from_all_track();
             song.play_from = -1;
             let evs = enc_tracks(&song);
-            let bin = midi::generate(&mut song);
-            format!("{}\t{}\t{}\t{}", hex(&bin), song.timebase, evs, enc_text(&song.get_logs_str()))
+            // bytes and log are those of the PUBLIC entry point (the staged run above only shows the events and the time base)
+            let r = compile(&text(&f[1]), 0);
+            format!("{}\t{}\t{}\t{}", hex(&r.bin), song.timebase, evs, enc_text(&r.log))
         }
         _ => crate::ext::run_case(f),
     }
